@@ -294,7 +294,7 @@ func TestVerif_C01(t *testing.T) {
 				for pos := 0; pos < 3; pos++ {
 					for bi, b1 := range b1s {
 						for ci, b2 := range b2s {
-							if !full && !((bi+ci+op+skip)%6 == 0) {
+							if !full && !((bi+ci+op+skip)%12 == 0) {
 								continue
 							}
 							for v := 0; v < 3; v++ {
@@ -316,6 +316,6 @@ func TestVerif_C01(t *testing.T) {
 			}
 		}
 	}
-	kit.Run(s, "grammar_programs", kit.N{Quick: 60000, Thorough: 3000000}, c01GenGrammar, c01Check)
-	kit.Run(s, "raw_programs", kit.N{Quick: 20000, Thorough: 1000000}, c01GenRaw, c01Check)
+	kit.Run(s, "grammar_programs", kit.N{Quick: 30000, Thorough: 3000000}, c01GenGrammar, c01Check)
+	kit.Run(s, "raw_programs", kit.N{Quick: 10000, Thorough: 1000000}, c01GenRaw, c01Check)
 }
